@@ -287,7 +287,9 @@ class C05(CheckBase):
                 prv = attrs.get(C.CKA_PRIVATE, (1, True))[1]
                 dec = {}
                 for t, (k, v) in attrs.items():
-                    if k == 3 and prv and len(v) > 0:
+                    if k == 3 and t == C.CKA_ALLOWED_MECHANISMS:
+                        pass        # the SQLite store keeps mechanism sets (never encrypted) among the binary attributes
+                    elif k == 3 and prv and len(v) > 0:
                         v = SF.decrypt_attr(ref, mk, v)
                     dec[t] = (k, v)
                 lab = dec.get(C.CKA_LABEL, (3, b"?"))[1]
@@ -304,6 +306,9 @@ class C05(CheckBase):
                     enc = b"\x01" if dv else b"\x00"
                 elif k == 2:
                     enc = struct.pack("<Q", dv)
+                elif k == 3 and t == C.CKA_ALLOWED_MECHANISMS and len(dv) % 8 == 0 and len(v) == len(dv):
+                    same_set = sorted(struct.unpack("<%dQ" % (len(v) // 8), v)) == sorted(struct.unpack("<%dQ" % (len(dv) // 8), dv))
+                    enc = v if same_set else dv
                 elif k == 3:
                     enc = dv
                 elif k == 5:
@@ -450,10 +455,27 @@ def main(tier):
                         "rule": "histories up to the depth bound merged on (kind, location, mutation list) of the live objects; in every state the running instance, a "
                                 "re-initialised instance and the independent decoder are compared attribute by attribute; plus the golden token directories "
                                 "(file and SQLite) written by the pinned commit"}
-        rep.assumptions = ["file store for the histories (SQLite store only through its golden fixture in this tier)", "byte-string ladder %r" % (list(kw.get("ladder", LADDER_QUICK)),),
+        rep.assumptions = ["file store for the histories at the full depth, SQLite store with a reduced kind list in the quick tier (plus the golden fixtures of both stores)", "byte-string ladder %r" % (list(kw.get("ladder", LADDER_QUICK)),),
                            "fs-fault clause: one injected failure per call (every file-system syscall of the call x its realistic errnos), file store"]
     finally:
         ex.close()
+    # the same histories on the SQLite store (reduced kind list in the quick tier; successors are reached in restoring snapshots);
+    # the third observer reads the database with Python's sqlite3 module
+    ddepth = 3
+    exd = Explorer(C05(**(dict(kinds=("aes-rich", "aes-tpl-bytes", "aes-tpl-mechs", "aes-noset", "rsa1024_priv", "cert", "session-prv"), ladder=(0, 1, 4097)) if quick else kw)),
+                   variant=variant, store="db", deadline=deadline)
+    try:
+        fixd = exd.bfs(ddepth)
+        confirm_violations(exd, rep)
+        sd = exd.stats
+        cd = dict(sd["counters"])
+        if not cd.get("objects_compared_after_restart") or not cd.get("decoder_values_compared"):
+            rep.harness_errors.append("vacuous (SQLite lane): %r" % cd)
+        rep.coverage["sqlite_store"] = {"states": sd["states"], "transitions": sd["transitions"], "levels": sd["levels"], "depth_bound": ddepth,
+                                        "exhaustive": bool(fixd or sd["depth_completed"] >= ddepth), "outcome_counters": cd}
+        rep.coverage["exhaustive"] = bool(rep.coverage["exhaustive"] and rep.coverage["sqlite_store"]["exhaustive"])
+    finally:
+        exd.close()
     # the fault clause: a call that could not persist its effect must not return CKR_OK (checks/fsfault.py)
     import fsfault
     rep.coverage["fs_fault_clause"] = fsfault.run("C05", tier, rep)
